@@ -78,22 +78,22 @@ func runC17(w *core.World, r *core.Report) {
 					}
 				}
 			case *ssa.BinOp:
-				if !isLenInput(t.X) {
+				x, op, c, isC := core.CmpConst(t)
+				if !isC || !isLenInput(x) {
 					continue
 				}
-				c, isC := core.ConstInt(t.Y)
-				if !isC {
-					continue
-				}
+				tt := struct{ Op token.Token }{op}
+				t2 := t
+				_ = t2
 				switch {
-				case c == 0 && (t.Op == token.GTR || t.Op == token.NEQ):
+				case c == 0 && (tt.Op == token.GTR || tt.Op == token.NEQ):
 					accFmt = append(accFmt, core.EdgesWhere(t, false)...) // empty input needs no format test
-				case c == 0 && t.Op == token.EQL:
+				case c == 0 && tt.Op == token.EQL:
 					accFmt = append(accFmt, core.EdgesWhere(t, true)...)
-				case c == limit && t.Op == token.GTR, c == limit+1 && t.Op == token.GEQ:
+				case c == limit && tt.Op == token.GTR, c == limit+1 && tt.Op == token.GEQ:
 					nlen++
 					accLen = append(accLen, core.EdgesWhere(t, false)...)
-				case c == limit && t.Op == token.LEQ, c == limit+1 && t.Op == token.LSS:
+				case c == limit && tt.Op == token.LEQ, c == limit+1 && tt.Op == token.LSS:
 					nlen++
 					accLen = append(accLen, core.EdgesWhere(t, true)...)
 				}
@@ -114,6 +114,9 @@ func runC17(w *core.World, r *core.Report) {
 		case n == "context.WithValue", strings.HasPrefix(n, "logging."), strings.HasPrefix(n, "fmt."), n == "errors.New", strings.HasPrefix(n, "builtin."), n == "vm.ValidInput",
 			strings.HasPrefix(n, "unicode/utf8."), strings.HasPrefix(n, "bytes."), strings.HasPrefix(n, "strings."), strings.HasPrefix(n, "strconv."):
 			return true // pure functions of the standard library
+		}
+		if g := core.StaticCallee(c); g != nil && pureHelper(g, 0, map[*ssa.Function]bool{}) {
+			return true // module helper that only builds values (e.g. derives a context)
 		}
 		return false
 	}
@@ -224,4 +227,49 @@ func runC17(w *core.World, r *core.Report) {
 		}
 	}
 	r.Floor("R5", "initd=true stores", ninit, 1)
+}
+
+// pureHelper: a module function without stores to fields/globals, map updates, or calls other than
+// context.WithValue, logging, formatting, pure standard-library functions and other pure helpers.
+func pureHelper(g *ssa.Function, depth int, seen map[*ssa.Function]bool) bool {
+	if g == nil || g.Pkg == nil || !strings.HasPrefix(g.Pkg.Pkg.Path(), core.ModPath) || len(g.Blocks) == 0 || depth > 2 {
+		return false
+	}
+	if seen[g] {
+		return true
+	}
+	seen[g] = true
+	for _, b := range g.Blocks {
+		for _, in := range b.Instrs {
+			switch t := in.(type) {
+			case *ssa.Store:
+				if _, isAlloc := t.Addr.(*ssa.Alloc); !isAlloc {
+					if ia, ok := t.Addr.(*ssa.IndexAddr); ok {
+						if _, isA := ia.X.(*ssa.Alloc); isA {
+							continue
+						}
+					}
+					if fa, ok := t.Addr.(*ssa.FieldAddr); ok {
+						if _, isA := fa.X.(*ssa.Alloc); isA {
+							continue
+						}
+					}
+					return false
+				}
+			case *ssa.MapUpdate, *ssa.Send, *ssa.Go, *ssa.Defer, *ssa.Panic:
+				return false
+			case *ssa.Call:
+				n := core.CallName(t)
+				switch {
+				case n == "context.WithValue", strings.HasPrefix(n, "logging."), strings.HasPrefix(n, "fmt.Sprint"), strings.HasPrefix(n, "builtin."),
+					strings.HasPrefix(n, "unicode/utf8."), strings.HasPrefix(n, "bytes."), strings.HasPrefix(n, "strings."), strings.HasPrefix(n, "strconv."):
+				default:
+					if h := core.StaticCallee(t); h == nil || !pureHelper(h, depth+1, seen) {
+						return false
+					}
+				}
+			}
+		}
+	}
+	return true
 }
